@@ -261,37 +261,62 @@ def r2a(ctx: RuleCtx) -> None:
         if '.all_outputs' not in m2.src:
             continue
         pm = m2.parent_map()
-        for node in ast.walk(m2.tree):
-            if not (isinstance(node, ast.Attribute) and node.attr == 'all_outputs'):
-                continue
-            q = m2.enclosing_func(node) or '<module>'
+
+        def classify(node: ast.AST) -> T.Tuple[str, T.Optional[ast.AST]]:
+            """How one occurrence of the registry (the attribute, or a local alias of it) is used."""
             par = pm.get(node)
-            kind = 'read'
-            if isinstance(node.ctx, (ast.Store, ast.Del)):
-                kind = 'rebind'
-            elif isinstance(par, ast.AugAssign) and par.target is node:
-                kind = 'rebind'
-            elif isinstance(par, ast.Attribute) and isinstance(pm.get(par), ast.Call) and pm[par].func is par:  # type: ignore[union-attr]
-                kind = 'mutate' if par.attr in SET_MUT else 'method:' + par.attr
-            elif isinstance(par, ast.Call) and node in par.args:
-                kind = 'ctor-arg' if _is_ctor(par, ELEMENT) and par.args and par.args[0] is node else 'escape'
-            elif isinstance(par, ast.keyword):
-                kind = 'escape'
-            elif isinstance(par, ast.Compare) and node in par.comparators and all(isinstance(o, (ast.In, ast.NotIn)) for o in par.ops):
-                kind = 'membership'
-            elif isinstance(par, (ast.Assign, ast.AnnAssign, ast.Return, ast.Tuple, ast.List, ast.Dict, ast.Set, ast.Starred)):
-                kind = 'escape'
-            allowed = {
-                'rebind': (rel == NB and q in (f'{BACKEND}.__init__', f'{ELEMENT}.__init__')),
-                'mutate': (rel == NB and q == f'{ELEMENT}.check_outputs' and isinstance(par, ast.Attribute) and par.attr == 'add'),
-                'ctor-arg': True, 'membership': True, 'read': True,
-            }
+            if isinstance(getattr(node, 'ctx', None), (ast.Store, ast.Del)):
+                return 'rebind', par
+            if isinstance(par, ast.AugAssign) and par.target is node:
+                return 'rebind', par
+            if isinstance(par, ast.Attribute) and isinstance(pm.get(par), ast.Call) and pm[par].func is par:  # type: ignore[union-attr]
+                return ('mutate' if par.attr in SET_MUT else 'method:' + par.attr), par
+            if isinstance(par, ast.Call) and node in par.args:
+                return ('ctor-arg' if _is_ctor(par, ELEMENT) and par.args and par.args[0] is node else 'escape'), par
+            if isinstance(par, ast.keyword):
+                return 'escape', par
+            if isinstance(par, ast.Compare) and node in par.comparators and all(isinstance(o, (ast.In, ast.NotIn)) for o in par.ops):
+                return 'membership', par
+            if isinstance(par, (ast.Assign, ast.AnnAssign)) and par.value is node:
+                tg = par.targets if isinstance(par, ast.Assign) else [par.target]
+                if len(tg) == 1 and isinstance(tg[0], ast.Name):
+                    return 'alias:' + tg[0].id, par
+                return 'escape', par
+            if isinstance(par, (ast.Return, ast.Tuple, ast.List, ast.Dict, ast.Set, ast.Starred, ast.NamedExpr)):
+                return 'escape', par
+            return 'read', par
+
+        def judge(node: ast.AST, q: str, depth: int = 0) -> None:
+            nonlocal live
+            kind, par = classify(node)
             if kind in ('rebind', 'mutate'):
+                if isinstance(node, ast.Name):
+                    if kind == 'rebind':
+                        return       # the alias definition itself
                 live += 1
-                ctx.require(allowed[kind], f'{rel}:{q}: {kind} of {norm(node)} by its owner', m2, q, pm.get(par, par) if kind == 'mutate' else par or node,
-                            f'`{short(pm.get(par, par) if kind == "mutate" else par, 80)}` writes the output registry outside NinjaBackend.__init__ / NinjaBuildElement.check_outputs', node)
+                ok = (rel == NB and q in (f'{BACKEND}.__init__', f'{ELEMENT}.__init__')) if kind == 'rebind' else \
+                    (rel == NB and q == f'{ELEMENT}.check_outputs' and isinstance(par, ast.Attribute) and par.attr == 'add')
+                shown = pm.get(par, par) if kind == 'mutate' else (par or node)
+                ctx.require(ok, f'{rel}:{q}: {kind} of {norm(node)} by its owner', m2, q, shown,
+                            f'`{short(shown, 80)}` writes the output registry outside NinjaBackend.__init__ / NinjaBuildElement.check_outputs', node)
+            elif kind.startswith('alias:'):
+                # a local name for the registry: every use of that local in the function is judged like the attribute itself
+                alias = kind[6:]
+                fnode = m2.funcs().get(q)
+                if fnode is None or depth > 0:
+                    raise Undecided(f'{rel}:{q}: `{short(par, 80)}` aliases the output registry outside a plain function body')
+                stores = [x for x in walk_no_nested(fnode) if isinstance(x, ast.Name) and x.id == alias and isinstance(x.ctx, (ast.Store, ast.Del))]
+                if len(stores) != 1:
+                    raise Undecided(f'{rel}:{q}: the alias `{alias}` of the output registry is bound {len(stores)} times')
+                for x in ast.walk(fnode):
+                    if isinstance(x, ast.Name) and x.id == alias and isinstance(x.ctx, ast.Load):
+                        judge(x, q, depth + 1)
             elif kind == 'escape' or kind.startswith('method:') and kind[7:] not in ('copy', '__contains__', 'isdisjoint', 'issubset', 'issuperset', 'union', 'intersection', 'difference'):
-                raise Undecided(f'{rel}:{q}: `{short(par, 80)}` lets the output registry escape ({kind}); aliases are not tracked')
+                raise Undecided(f'{rel}:{q}: `{short(par, 80)}` lets the output registry escape ({kind}); aliases are only tracked as plain locals')
+
+        for node in ast.walk(m2.tree):
+            if isinstance(node, ast.Attribute) and node.attr == 'all_outputs':
+                judge(node, m2.enclosing_func(node) or '<module>')
     ctx.floor('writers of the registry found by the scan (init + check_outputs.add)', live, 3)
 
 
@@ -378,7 +403,8 @@ def _registering_loops(info: L.FnInfo) -> T.List[T.Tuple[Node, str, T.List[Node]
             for x in ast.walk(st):
                 body.add(id(x))
         adds = [m for m in info.cfg.nodes if m.ast is not None and id(m.ast) in body and any(
-            call_name(c) == 'self.all_outputs.add' and len(c.args) == 1 and isinstance(c.args[0], ast.Name) and c.args[0].id == v for c in L.node_calls(m))]
+            isinstance(c.func, ast.Attribute) and c.func.attr == 'add' and attr_chain(L.inline_locals(info, c.func.value, m)) == 'self.all_outputs'
+            and len(c.args) == 1 and isinstance(c.args[0], ast.Name) and c.args[0].id == v for c in L.node_calls(m))]
         if adds:
             out.append((n, v, adds))
     return out
@@ -391,6 +417,17 @@ def r2c(ctx: RuleCtx) -> None:
     cfg = info.cfg
     loops = _registering_loops(info)
     if not loops:
+        # a violation only if nothing in the function could be doing the insertion in a form this rule does not read
+        tr0 = L.Tracer(info)
+        for n in cfg.nodes:
+            for c in L.node_calls(n):
+                cn = call_name(c) or ''
+                if cn.startswith('self.') and cn.count('.') == 1:
+                    raise Undecided(f'check_outputs: no registering loop found, but `{short(c, 60)}` may register the names')
+                recv = c.func.value if isinstance(c.func, ast.Attribute) else None
+                for e in ([recv] if recv is not None else []) + list(c.args):
+                    if 'attr:self.all_outputs' in tr0.origins(e, n) and not (isinstance(c.func, ast.Attribute) and c.func.attr in ('discard', 'remove', 'clear', 'pop')):
+                        raise Undecided(f'check_outputs: no registering loop found, but `{short(c, 60)}` touches the registry in a form the rule does not read')
         ctx.violation(mod, qn, 'self.all_outputs.add(<output name>)', 'check_outputs has no loop that inserts the names it iterates into self.all_outputs: '
                       'no output is ever registered, duplicates between statements go unnoticed', info.fn)
     for ln, v, adds in loops:
@@ -762,32 +799,58 @@ def r3b(ctx: RuleCtx) -> None:
 
     # 3. NinjaRule.write: emits `rule <name>` when refcount, `rule <name>_RSP` when rsprefcount
     rw = infos.get('NinjaRule.write')
-    gens = [q for q in mod.funcs() if q.startswith('NinjaRule.write.')]
-    table: T.Dict[str, str] = {}
     header = None
     for n in rw.cfg.nodes:
         for c in L.node_calls(n):
-            if call_method(c) == 'write' and c.args and isinstance(c.args[0], ast.JoinedStr):
-                p = _flatten_concat(c.args[0])
-                if p and isinstance(p[0], str) and p[0].startswith('rule '):
+            if call_method(c) == 'write' and c.args:
+                try:
+                    p = _flatten_concat(L.inline_locals(rw, c.args[0], n))
+                except Undecided:
+                    continue
+                if len(p) > 1 and isinstance(p[0], str) and p[0].startswith('rule '):
                     header = (n, p)
-    if header is None or len(gens) != 1:
-        raise Undecided('NinjaRule.write: `rule <name>` header or the variant generator not found')
+    if header is None:
+        raise Undecided('NinjaRule.write: the statement that writes the `rule <name>` header was not found')
     hn, hp = header
     exprs = [x for x in hp if not isinstance(x, str)]
     if len(exprs) != 2 or attr_chain(exprs[0]) != 'self.name' or not isinstance(exprs[1], ast.Name):
         raise Undecided(f'NinjaRule.write: header parts {[norm(x) for x in hp]}')
     rsv = rw.reaching(exprs[1].id, hn)
-    if len(rsv) != 1 or not isinstance(rsv[0], L.Def) or rsv[0].kind != 'iter' or not isinstance(rsv[0].value, ast.Call) or \
-            call_name(rsv[0].value) != gens[0].split('.')[-1]:
-        raise Undecided('NinjaRule.write: the header suffix does not iterate the variant generator')
-    g = mod.func(gens[0])
-    gt = tables.extract(g, effects=lambda st: ('yield ' + norm(st.value.value)) if isinstance(st, ast.Expr) and isinstance(st.value, ast.Yield) else None, name='rule_iter')
+    if len(rsv) != 1 or not isinstance(rsv[0], L.Def) or rsv[0].kind != 'iter' or rsv[0].value is None:
+        raise Undecided('NinjaRule.write: the header suffix is not the variable of a loop over the variants')
+    src = rsv[0].value
+    if isinstance(src, ast.Call) and isinstance(src.func, ast.Name) and not src.args and mod.has_func(f'NinjaRule.write.{src.func.id}'):
+        # the variants come from a nested generator
+        g = mod.func(f'NinjaRule.write.{src.func.id}')
+        gt = tables.extract(g, effects=lambda st: ('yield ' + norm(st.value.value)) if isinstance(st, ast.Expr) and isinstance(st.value, ast.Yield) else None, name='rule variants')
+    elif isinstance(src, ast.Name):
+        # the variants are collected in a local list: empty at first, then `append(<suffix>)` under conditions
+        lv = src.id
+        lds = rw.reaching(lv, rsv[0].node)
+        if len(lds) != 1 or not isinstance(lds[0], L.Def) or lds[0].kind != 'assign' or not (
+                (isinstance(lds[0].value, ast.List) and not lds[0].value.elts) or (isinstance(lds[0].value, ast.Call) and call_name(lds[0].value) == 'list' and not lds[0].value.args)):
+            raise Undecided(f'NinjaRule.write: the variant list `{lv}` does not start as one empty list')
+        muts = rw.mutations().get(lv, [])
+        if not muts or any(c.func.attr != 'append' or len(c.args) != 1 for _, c in muts):  # type: ignore[union-attr]
+            raise Undecided(f'NinjaRule.write: the variant list `{lv}` is filled by something other than append(<suffix>)')
+        mut_ids = {id(c) for _, c in muts}
+        stmts = [st for st in rw.fn.body if any(id(x) in mut_ids for x in ast.walk(st))]
+        if any(isinstance(st, (ast.For, ast.While, ast.Try, ast.With)) for st in stmts):
+            raise Undecided(f'NinjaRule.write: the variant list `{lv}` is filled inside a loop/try')
+        g = rw.fn
+
+        def leff(st: ast.AST, lv: str = lv) -> T.Optional[str]:
+            if isinstance(st, ast.Expr) and isinstance(st.value, ast.Call) and call_name(st.value) == f'{lv}.append':
+                return 'yield ' + norm(st.value.args[0])
+            return None
+        gt = tables.extract(rw.fn, body=stmts, effects=leff, inline=False, name='rule variants')
+    else:
+        raise Undecided(f'NinjaRule.write: the rule variants come from `{short(src, 60)}`, a form the rule does not read')
     A_REF = tables.Atom('truth', ('self.refcount',))
     A_RSPC = tables.Atom('truth', ('self.rsprefcount',))
     unknown = [a for a in gt.atoms() if a not in (A_REF, A_RSPC)]
     if unknown:
-        raise Undecided(f'rule_iter: unknown atoms {unknown}')
+        raise Undecided(f'NinjaRule.write variants: unknown atoms {unknown}')
     okg = True
     why = ''
     for wd in gt.worlds([A_REF, A_RSPC]):
